@@ -86,7 +86,7 @@ CHECKS["C17"] = dict(
          "history). The content lies in the ties: (1) source scan on every run: the only static/thread-local/lazy/atomic/unsafe item "
          "in /repo/src is the immutable DEVICES table and no hash map is iterated; (2) correspondence of the functional model with "
          "the code; (3) every source built alone in a fresh process, after and before all others in one process and on 8 concurrent "
-         "threads in different rotations - all observations equal.",
+         "threads in different rotations (programs deep inside chains of definitions among them) - all observations equal.",
     note=BASE + " Thread schedules are explored, not proved; CommonContext is Rc<RefCell> (!Send) - a type-system argument recorded as an "
          "assumption. Working directory and HOME are inputs.",
     tech="Coq proof over a purely functional model + static source scan + history/thread differential runs",
@@ -161,7 +161,7 @@ CHECKS["C16"] = dict(
          "panic; cyclic symbols / recursive macros end in an error at depth 64; all model functions are total. Not expressible in Gallina: "
          "native stack depth, time, allocator - exercised by ./check C16: every case in an isolated worker (3 GB limit, watchdog), "
          "bounded-exhaustive single-line programs (153 heads x 0-2 operands from a 43-entry hostile dictionary), structural extremes, "
-         "mutated programs; three deep-nesting inputs are open known findings. C16_no_truncation / C16_counter_bounded: an advance that reaches 2^32 is an error whatever its size; accepted counters stay below 2^32." + PROG,
+         "mutated programs, 64 KiB repeated-line programs and lines with unbalanced parentheses answered within 3 s; three deep-nesting inputs are open known findings. C16_no_truncation / C16_counter_bounded: an advance that reaches 2^32 is an error whatever its size; accepted counters stay below 2^32." + PROG,
     note=BASE + " The remaining Panic sites of the model are the 32-bit additions of pass 2, unreachable after pass 1's check (not proved). "
          "'Promptly' is operationalised as 3 s (two tries) in the debug worker for 64 KiB - the bound of the quantifier - of one kind of "
          "line each; everything else runs under a 10 s watchdog.",
